@@ -325,6 +325,9 @@ pub fn not_cmp(_level: u8, f: &mut dyn FnMut(Case)) {
         T::Float(two53 as f64),
         T::Float(1e300),
         T::Float(0.1),
+        T::Int(1),
+        T::Float(1.0),
+        atom("1"),
     ];
     for x in &dom {
         for y in &dom {
@@ -333,6 +336,9 @@ pub fn not_cmp(_level: u8, f: &mut dyn FnMut(Case)) {
                     rule("p", vec![atom("bound")], G::And(vec![G::Unify(v("$A"), x.clone()), G::Unify(v("$B"), y.clone()), G::Not(Box::new(G::Cmp(rel, v("$A"), v("$B"))))])),
                     rule("p", vec![atom("literal")], G::Not(Box::new(G::Cmp(rel, x.clone(), y.clone())))),
                     rule("p", vec![atom("twice")], G::Not(Box::new(G::Not(Box::new(G::Cmp(rel, x.clone(), y.clone())))))),
+                    // the negated goal is a unification of the two (1 = 1.0 fails although 1 == 1.0 holds)
+                    rule("p", vec![atom("unify")], G::And(vec![G::Unify(v("$A"), x.clone()), G::Unify(v("$B"), y.clone()), G::Not(Box::new(G::Unify(v("$A"), v("$B"))))])),
+                    rule("p", vec![atom("unify-literal")], G::Not(Box::new(G::Unify(x.clone(), y.clone())))),
                 ];
                 f(Case { family: "not@scale", prog: p, queries: vec![cplx("p", vec![v("$Z")])] });
             }
